@@ -360,6 +360,37 @@ def matchTableSim (sim : Nat → List Nat) (t o : Table) : Except Err (List (Nat
   else .ok ((List.range o.nb).flatMap fun b => (slotEntries o.slots b).flatMap fun oe =>
     (sim oe.kmer).flatMap fun q' => (lookup t q').map fun se => (oe.ref, oe.pos, se.ref, se.pos))
 
+/-- the alphabet of a query sequence relative to the letter series the base alphabets are prefixes of:
+a prefix alphabet of `m` symbols, or an alphabet with other symbols. -/
+inductive QAlph where
+  | pre (m : Nat)
+  | foreign
+  deriving DecidableEq, Repr
+
+/-- `base_alphabet.extends(sequence.alphabet)`: the query alphabet's symbols are a prefix of the base alphabet's. -/
+def QAlph.extendedBy (q : QAlph) (n : Nat) : Bool :=
+  match q with
+  | .pre m => decide (m ≤ n)
+  | .foreign => false
+
+/-- `match(sequence, ignore_mask=…)` including the alphabet guard: a query over an alphabet the table's
+base alphabet does not extend is refused, even if all its symbol codes would be in range. -/
+def matchSeqQ (t : Table) (qa : QAlph) (seq : List Nat) (mask : Option (List Bool)) :
+    Except Err (List (Nat × Nat × Nat)) :=
+  if seq.length < t.alph.k then .error .valueError
+  else if ! qa.extendedBy t.alph.n then .error .valueError
+  else matchSeq t seq mask
+
+/-- `KmerAlphabet.__eq__` **as written**: base alphabet, `k`, then the spacing case distinction. -/
+def kalphEq (a b : KAlph) : Bool :=
+  if a.n ≠ b.n then false
+  else if a.k ≠ b.k then false
+  else match a.spacing with
+    | none => b.spacing.isNone
+    | some s => match b.spacing with
+      | none => false
+      | some s' => s == s'
+
 /-- `match_kmer_selection(positions, kmers)`. -/
 def matchSelection (t : Table) (positions kmers : List Nat) : Except Err (List (Nat × Nat × Nat)) :=
   if ! checkBounds t.alph kmers then .error .alphabetError
@@ -461,34 +492,46 @@ def splitCode (n : Nat) : Nat → Nat → List Nat
   | 0, _ => []
   | k + 1, code => splitCode n k (code / n) ++ [code % n]
 
-/-- similarity score of two split k-mers under the row-major `n × n` matrix `mat`. -/
-def scoreOf (n : Nat) (mat : List Int) (a b : List Nat) : Int :=
-  (a.zip b).foldl (fun s xy => s + (mat[xy.1 * n + xy.2]?.getD 0)) 0
+/-- number of symbols of the substitution matrix' alphabet (`mat` is the row-major `m × m` matrix; the
+matrix alphabet may be larger than the base alphabet of the k-mers, which it must extend). -/
+def matDim (mat : List Int) : Nat :=
+  match (List.range (mat.length + 1)).find? (fun m => m * m == mat.length) with
+  | some m => m
+  | none => 0          -- not a square matrix (never generated): no symbols, i.e. incompatible
+
+/-- similarity score of two split k-mers under the row-major `m × m` matrix `mat`. -/
+def scoreOf (m : Nat) (mat : List Int) (a b : List Nat) : Int :=
+  (a.zip b).foldl (fun s xy => s + (mat[xy.1 * m + xy.2]?.getD 0)) 0
 
 /-- `ScoreThresholdRule(matrix, threshold).similar_kmers(kmer_alphabet, kmer)` as a set: all k-mers
-whose total substitution score with `q` reaches the threshold. -/
+**over the base alphabet** whose total substitution score with `q` reaches the threshold (the matrix
+is trimmed to the base alphabet: symbols the matrix knows in addition never appear). -/
 def scoreSim (a : KAlph) (mat : List Int) (thr : Int) (q : Nat) : List Nat :=
   (List.range a.size).filter fun q' =>
-    decide (scoreOf a.n mat (splitCode a.n a.k q) (splitCode a.n a.k q') ≥ thr)
+    decide (scoreOf (matDim mat) mat (splitCode a.n a.k q) (splitCode a.n a.k q') ≥ thr)
 
-/-- `max_scores = np.max(score_matrix, axis=-1)`: the row maxima. -/
-def rowMax (n : Nat) (mat : List Int) (x : Nat) : Int :=
-  ((List.range n).map fun y => mat[x * n + y]?.getD 0).foldl max (mat[x * n]?.getD 0)
+/-- `max_scores = np.max(score_matrix, axis=-1)`: the row maxima over the *whole* matrix row. -/
+def rowMax (m : Nat) (mat : List Int) (x : Nat) : Int :=
+  ((List.range m).map fun y => mat[x * m + y]?.getD 0).foldl max (mat[x * m]?.getD 0)
 
 /-- the branch-and-bound search of `ScoreThresholdRule.similar_kmers` (the `while pos != -1` loop
 written as the depth-first recursion it performs): `qs` are the remaining symbols of the query
-k-mer, `score` the score of the prefix chosen so far; a symbol `c` is kept iff the prefix score
-reaches `positional_thresholds[pos] = threshold - Σ_{j>pos} max_scores[q_j]`. -/
-def bbSearch (n : Nat) (mat : List Int) (maxS : Nat → Int) (thr : Int) : List Nat → Int → List (List Nat)
+k-mer, `score` the score of the prefix chosen so far; candidate symbols run over the `n` symbols of
+the base alphabet (the matrix, of row length `m`, is trimmed to it); a symbol `c` is kept iff the
+prefix score reaches `positional_thresholds[pos] = threshold - Σ_{j>pos} max_scores[q_j]`. -/
+def bbSearch (n m : Nat) (mat : List Int) (maxS : Nat → Int) (thr : Int) : List Nat → Int → List (List Nat)
   | [], _ => [[]]
   | qd :: qs, score =>
     (List.range n).flatMap fun c =>
-      let sc := score + mat[qd * n + c]?.getD 0
-      if sc ≥ thr - (qs.map maxS).sum then (bbSearch n mat maxS thr qs sc).map (c :: ·) else []
+      let sc := score + mat[qd * m + c]?.getD 0
+      if sc ≥ thr - (qs.map maxS).sum then (bbSearch n m mat maxS thr qs sc).map (c :: ·) else []
 
 /-- `similar_kmers(kmer_alphabet, kmer)`: split, search, fuse. -/
 def bbSim (a : KAlph) (mat : List Int) (thr : Int) (q : Nat) : List Nat :=
-  (bbSearch a.n mat (rowMax a.n mat) thr (splitCode a.n a.k q) 0).map (fuseCodes a.n)
+  (bbSearch a.n (matDim mat) mat (rowMax (matDim mat) mat) thr (splitCode a.n a.k q) 0).map (fuseCodes a.n)
+
+/-- the guard of `similar_kmers`: the matrix alphabet must extend the base alphabet. -/
+def ruleCompatible (a : KAlph) (mat : List Int) : Bool := a.n ≤ matDim mat
 
 /-! ## Permutations -/
 
